@@ -225,7 +225,9 @@ def structure(sub_spelling):
     d.variable(real)
     flags = [Entry("Flag %d" % i, 0x2310 + i, 0, 0x01, "rw", default=val, default_text=txt_, pdo=1)
              for i, (val, txt_) in enumerate(((1, "1"), (0, "0"), (1, "0x1"), (0, "0x0")))]
-    for f in flags:
+    for f, ptxt in zip(flags, ("0x0", "0x1", "0x00", "1")):
+        f.pdo = int(ptxt, 0)
+        f.pdo_text = ptxt             # literal spellings of the flag (the exporter itself writes 0x0 / 0x1)
         d.variable(f)
     dotted = Entry("Max. motor speed", 0x2304, 0, 0x07, "rw", default=v1, default_text=num(v1))
     d.variable(dotted)
